@@ -47,6 +47,9 @@ def access_stmt(form, el, arr_name, idx):
         return SHOW[el] % tgt
     if form == 'write':
         return '%s = %s;' % (tgt, newv)
+    if form == 'write_call':
+        # the right-hand side has an effect: an out-of-range index must be reported before it happens
+        return '%s = mk_%s();' % (tgt, el)
     if form.startswith('compound'):
         return '%s %s= %s;' % (tgt, form[8:], '3' if el == 'int' else "'\\x02'")
     if form == 'cond':
@@ -69,12 +72,12 @@ def index_probes():
     for el in ('int', 'byte', 'bool', 'string'):
         ty, vals, newv = ELEMS[el]
         lit = '[' + ', '.join(vals) + ']'
-        helper = 'empty show(%s x) { %s }\n' % (ty, SHOW[el] % 'x')
-        forms = ['read', 'cond', 'arg', 'write']
+        helper = 'empty show(%s x) { %s }\n' % (ty, SHOW[el] % 'x') + '%s mk_%s() { write(\'!\'); gc = gc + 1; return %s; }\n' % (ty, el, newv)
+        forms = ['read', 'cond', 'arg', 'write', 'write_call']
         if el in ('int', 'byte'):
             forms += ['compound+', 'compound-', 'compound*', 'compound/', 'compound%']
         for form in forms:
-            writes = form == 'write' or form.startswith('compound')
+            writes = form in ('write', 'write_call') or form.startswith('compound')
             storages = ['local_literal', 'local_hoisted_const', 'vla', 'global_mut', 'param_from_mut', 'param_rw']
             if not writes:
                 storages += ['global_const', 'param_from_const', 'const_param_from_mut']
